@@ -3,9 +3,16 @@
   Property theorems only; helper lemmas live in HL/Lemmas/Refs.lean.
 
   Model: HL/Model/Refs.lean (references.go, rename.go, definition.go as repaired by
-  repo_patches/fix-references-rename.diff; which resolved journal a request reads as repaired by
-  fix-orphan-journal-own-tree.diff) and HL/Model/WsDocs.lean (how didOpen / didChange / didSave
-  drive the workspace, as repaired by fix-didopen-workspace.diff).  Spec: HL/Spec/Occurrences.lean.
+  repo_patches/fix-references-rename.diff and fix-utf16-positions.diff; which resolved journal a
+  request reads as repaired by fix-orphan-journal-own-tree.diff) and HL/Model/WsDocs.lean (how
+  didOpen / didChange / didSave / didClose drive the workspace, as repaired by
+  fix-didopen-workspace.diff and fix-didclose-workspace.diff).  Spec: HL/Spec/Occurrences.lean.
+
+  Positions.  The trees' columns count runes; the server converts them to UTF-16 characters with
+  the lines of each file's text (`textsOf ws`: what `fileMappers` hands out) and the cursor of a
+  request to a rune column.  `faithful f.lns f.tree f.spans` compares the CONVERTED node ranges
+  with the spans of the text, so a character outside the BMP before or inside a lexeme is no
+  longer a reason for a tree to be unfaithful (`pinned_utf16_columns_counterexample`).
 -/
 import HL.Lemmas.Refs
 import HL.Lemmas.WsDocs
@@ -19,7 +26,7 @@ open HL HL.Ast HL.Refs HL.Spec.Occ HL.Lemmas.Refs
     file, each attributed to the file that contains it. -/
 theorem refs_exact (ws : Workspace) (hwf : ws.WF) (hf : ws.faithful) (kind : Kind) (name : Bytes)
     (hne : name ≠ []) (incl : Bool) (cur : Option Journal) (order : List Path) (l : Loc) :
-    l ∈ findReferences kind name (some (resolvedOf ws order)) ws.root.path cur incl ↔
+    l ∈ findReferences (textsOf ws) kind name (some (resolvedOf ws order)) ws.root.path cur incl ↔
       l ∈ occurrences ws.spanFiles kind name incl := by
   obtain ⟨hroot, hnd⟩ := hwf
   have hn : (ws.root.path :: (resolvedOf ws order).files.map (·.1)).Nodup := by
@@ -29,7 +36,7 @@ theorem refs_exact (ws : Workspace) (hwf : ws.WF) (hf : ws.faithful) (kind : Kin
   simp only [occurrences, Workspace.spanFiles, List.mem_flatMap, List.mem_map, List.mem_filter]
   constructor
   · rintro ⟨p, j, hpj, hl0⟩
-    obtain ⟨s, hs, hsym, hl⟩ := (mem_locsOf kind name hne incl p j l).mp hl0
+    obtain ⟨s, hs, hsym, hl⟩ := (mem_locsOf (textsOf ws) kind name hne incl p j l).mp hl0
     have hfile : ∃ f ∈ ws.files, f.path = p ∧ f.tree = j := by
       rcases (hm (p, j)).mp hpj with h | h
       · exact ⟨ws.root, by simp [Workspace.files], by cases h; exact ⟨rfl, rfl⟩⟩
@@ -38,10 +45,11 @@ theorem refs_exact (ws : Workspace) (hwf : ws.WF) (hf : ws.faithful) (kind : Kin
         cases he
         exact ⟨f, by simp [Workspace.files, hfm], rfl, rfl⟩
     obtain ⟨f, hfm, rfl, rfl⟩ := hfile
+    rw [textsOf_mem ws hnd f hfm] at hs
     exact ⟨(f.path, f.spans), ⟨f, hfm, rfl⟩, s, ⟨((hf f hfm).2 s).mp hs, hsym⟩, hl.symm⟩
   · rintro ⟨_, ⟨f, hfm, rfl⟩, s, ⟨hs, hsym⟩, hl⟩
-    refine ⟨f.path, f.tree, ?_, (mem_locsOf kind name hne incl f.path f.tree l).mpr
-      ⟨s, ((hf f hfm).2 s).mpr hs, hsym, hl.symm⟩⟩
+    refine ⟨f.path, f.tree, ?_, (mem_locsOf (textsOf ws) kind name hne incl f.path f.tree l).mpr
+      ⟨s, by rw [textsOf_mem ws hnd f hfm]; exact ((hf f hfm).2 s).mpr hs, hsym, hl.symm⟩⟩
     apply (hm _).mpr
     simp only [Workspace.files, List.mem_cons] at hfm
     rcases hfm with rfl | h
@@ -50,20 +58,21 @@ theorem refs_exact (ws : Workspace) (hwf : ws.WF) (hf : ws.faithful) (kind : Kin
 
 /-! ### The element under the cursor -/
 
-/-- **target_exact.**  On a document whose tree is faithful to its text, for every cursor
-    position: the symbol `findDefinitionTarget` determines is the span the cursor is on (start and
-    end included) — kind, name and exact lexeme range — and there is none exactly when the cursor
-    is on no occurrence. -/
-theorem target_exact (j : Journal) (spans : List Span) (hf : faithful j spans)
-    (hsep : separated spans) (pos : LPos) :
-    (findDefinitionTarget j pos).map (fun t => (t.kind, t.name, t.range)) =
+/-- **target_exact.**  On a document whose tree is faithful to its text, for every cursor that
+    is a position of the text (UTF-16 units, as the client sends it): the symbol
+    `findDefinitionTarget` determines is the span the cursor is on (start and end included) —
+    kind, name and exact lexeme range — and there is none exactly when the cursor is on no
+    occurrence. -/
+theorem target_exact (lns : Lines) (j : Journal) (spans : List Span) (hf : faithful lns j spans)
+    (hsep : separated spans) (pos : LPos) (hpos : cursorOK lns pos) :
+    (findDefinitionTarget lns j pos).map (fun t => (t.kind, t.name, t.range)) =
       (spanAt spans pos).map (fun s => (s.kind, s.name, s.range)) := by
-  cases ht : findDefinitionTarget j pos with
+  cases ht : findDefinitionTarget lns j pos with
   | some t =>
-    obtain ⟨n, hn, hr, rfl⟩ := target_sound j pos t ht
+    obtain ⟨n, hn, hr, rfl⟩ := target_sound j (runePos lns pos) t ht
     have hsane := hf.1 n hn
-    have hmem : n.toSpan ∈ spans := (hf.2 _).mp (List.mem_map.mpr ⟨n, hn, rfl⟩)
-    have hhas : n.toSpan.has pos = true := by rw [← positionInRange_eq_has n hsane pos]; exact hr
+    have hmem : n.toSpan lns ∈ spans := (hf.2 _).mp (List.mem_map.mpr ⟨n, hn, rfl⟩)
+    have hhas : (n.toSpan lns).has pos = true := by rw [← positionInRange_eq_has n hsane pos hpos]; exact hr
     cases hs : spanAt spans pos with
     | none =>
       have := List.find?_eq_none.mp hs _ hmem
@@ -82,14 +91,15 @@ theorem target_exact (j : Journal) (spans : List Span) (hf : faithful j spans)
       have hs1 := List.mem_of_find?_eq_some hs
       have hs2 := List.find?_some hs
       obtain ⟨n, hn, rfl⟩ := List.mem_map.mp ((hf.2 s).mpr hs1)
-      have hr : positionInRange pos n.range = true := by
-        rw [positionInRange_eq_has n (hf.1 n hn) pos]; exact hs2
-      have := target_complete j pos n hn hr
-      rw [ht] at this; cases this
+      have hr : positionInRange (runePos lns pos) n.range = true := by
+        rw [positionInRange_eq_has n (hf.1 n hn) pos hpos]; exact hs2
+      have := target_complete (lns := lns) j (runePos lns pos) n hn hr
+      rw [show findDefinitionTargetR lns j (runePos lns pos) = findDefinitionTarget lns j pos from rfl, ht] at this
+      cases this
 
 /-- A request as the handlers see it, made from file `cur` of the workspace. -/
 def requestFrom (ws : Workspace) (cur : FileT) (order : List Path) (pos : LPos) : Request :=
-  ⟨cur.tree, some (resolvedOf ws order), ws.root.path, pos⟩
+  ⟨cur.tree, some (resolvedOf ws order), ws.root.path, pos, cur.lns, textsOf ws⟩
 
 /-- What the property demands of a request at `pos` in `cur`: nothing when the cursor is on no
     occurrence, otherwise every occurrence of that symbol in the whole workspace. -/
@@ -102,11 +112,11 @@ def expected (ws : Workspace) (cur : FileT) (pos : LPos) (incl : Bool) : List Lo
     (`cur` is any file; nothing depends on which), at every cursor position. -/
 theorem references_exact (ws : Workspace) (hwf : ws.WF) (hf : ws.faithful) (cur : FileT)
     (hcur : cur ∈ ws.files) (hsep : separated cur.spans) (hnames : ∀ s ∈ cur.spans, s.name ≠ [])
-    (order : List Path) (pos : LPos) (incl : Bool) (l : Loc) :
+    (order : List Path) (pos : LPos) (hpos : cursorOK cur.lns pos) (incl : Bool) (l : Loc) :
     l ∈ references (requestFrom ws cur order pos) incl ↔ l ∈ expected ws cur pos incl := by
-  have ht := target_exact cur.tree cur.spans (hf cur hcur) hsep pos
+  have ht := target_exact cur.lns cur.tree cur.spans (hf cur hcur) hsep pos hpos
   simp only [references, requestFrom, expected]
-  cases h1 : findDefinitionTarget cur.tree pos with
+  cases h1 : findDefinitionTarget cur.lns cur.tree pos with
   | none =>
     cases h2 : spanAt cur.spans pos with
     | none => simp
@@ -124,11 +134,11 @@ theorem references_exact (ws : Workspace) (hwf : ws.WF) (hf : ws.faithful) (cur 
 
 /-- **prepareRename_exact.**  The range offered for renaming is the lexeme under the cursor. -/
 theorem prepareRename_exact (ws : Workspace) (hf : ws.faithful) (cur : FileT) (hcur : cur ∈ ws.files)
-    (hsep : separated cur.spans) (order : List Path) (pos : LPos) :
+    (hsep : separated cur.spans) (order : List Path) (pos : LPos) (hpos : cursorOK cur.lns pos) :
     prepareRename (requestFrom ws cur order pos) = (spanAt cur.spans pos).map (·.range) := by
-  have ht := target_exact cur.tree cur.spans (hf cur hcur) hsep pos
+  have ht := target_exact cur.lns cur.tree cur.spans (hf cur hcur) hsep pos hpos
   simp only [prepareRename, requestFrom]
-  cases h1 : findDefinitionTarget cur.tree pos <;> cases h2 : spanAt cur.spans pos <;>
+  cases h1 : findDefinitionTarget cur.lns cur.tree pos <;> cases h2 : spanAt cur.spans pos <;>
     rw [h1, h2] at ht <;> simp at ht ⊢
   exact ht.2.2
 
@@ -156,43 +166,52 @@ theorem wsContains_member (ws : Workspace) (order : List Path) (cur : FileT) (hc
   · exact Or.inr ⟨(cur.path, cur.tree), ⟨cur, h, rfl⟩, rfl⟩
 
 /-- A request as the SERVER builds it for the document `cur`: the workspace's journal and the
-    journal stored for the document's URI go through `resolvedWithPrimaryPath`. -/
-def serverRequest (wsView : Option (Resolved × Path)) (own : Option Resolved) (cur : FileT) (pos : LPos) : Request :=
+    journal stored for the document's URI go through `resolvedWithPrimaryPath`, which also picks
+    the texts the positions are converted with: `wsTexts` (`openFileMappers`) with the
+    workspace's journal, `ownTexts` (the document's buffer, the included files as on disk) with
+    the document's own. -/
+def serverRequest (wsView : Option (Resolved × Path)) (wsTexts : Texts) (own : Option Resolved)
+    (ownTexts : Texts) (cur : FileT) (pos : LPos) : Request :=
   let c := resolvedWithPrimaryPath wsView own cur.path
-  ⟨cur.tree, c.1, c.2, pos⟩
+  let usedWs := match wsView with
+    | some (r, root) => wsContains r root cur.path
+    | none => false
+  ⟨cur.tree, c.1, c.2, pos, cur.lns, if usedWs then wsTexts else ownTexts⟩
 
 /-- **references_exact_member.**  With a workspace, from the root journal or any member file:
     every occurrence in the workspace (whatever is stored for the document's own URI). -/
 theorem references_exact_member (ws : Workspace) (hwf : ws.WF) (hf : ws.faithful) (cur : FileT)
     (hcur : cur ∈ ws.files) (hp : cur.path ≠ "") (hsep : separated cur.spans)
     (hnames : ∀ s ∈ cur.spans, s.name ≠ []) (order : List Path) (own : Option Resolved)
-    (pos : LPos) (incl : Bool) (l : Loc) :
-    l ∈ references (serverRequest (some (resolvedOf ws order, ws.root.path)) own cur pos) incl ↔
+    (ownTexts : Texts) (pos : LPos) (hpos : cursorOK cur.lns pos) (incl : Bool) (l : Loc) :
+    l ∈ references (serverRequest (some (resolvedOf ws order, ws.root.path)) (textsOf ws) own ownTexts cur pos) incl ↔
       l ∈ expected ws cur pos incl := by
-  have hc := (resolved_choice (resolvedOf ws order) ws.root.path own cur.path).1
-    (wsContains_member ws order cur hcur hp)
-  simp only [serverRequest, hc]
-  exact references_exact ws hwf hf cur hcur hsep hnames order pos incl l
+  have hm := wsContains_member ws order cur hcur hp
+  have hc := (resolved_choice (resolvedOf ws order) ws.root.path own cur.path).1 hm
+  simp only [serverRequest, hc, hm, if_true]
+  exact references_exact ws hwf hf cur hcur hsep hnames order pos hpos incl l
 
 /-- **references_exact_own_tree.**  From a journal `cur` outside the workspace root's include
     tree (and without a workspace): every occurrence in `cur` and its OWN include tree `wsOwn`
     (root `cur`), once that tree has been resolved for the document — the current file is no
     longer left out. -/
-theorem references_exact_own_tree (wsView : Option (Resolved × Path)) (wsOwn : Workspace)
+theorem references_exact_own_tree (wsView : Option (Resolved × Path)) (wsTexts : Texts) (wsOwn : Workspace)
     (hout : ∀ r root, wsView = some (r, root) → wsContains r root wsOwn.root.path = false)
     (hwf : wsOwn.WF) (hf : wsOwn.faithful) (hsep : separated wsOwn.root.spans)
-    (hnames : ∀ s ∈ wsOwn.root.spans, s.name ≠ []) (order : List Path) (pos : LPos) (incl : Bool) (l : Loc) :
-    l ∈ references (serverRequest wsView (some (resolvedOf wsOwn order)) wsOwn.root pos) incl ↔
+    (hnames : ∀ s ∈ wsOwn.root.spans, s.name ≠ []) (order : List Path) (pos : LPos)
+    (hpos : cursorOK wsOwn.root.lns pos) (incl : Bool) (l : Loc) :
+    l ∈ references (serverRequest wsView wsTexts (some (resolvedOf wsOwn order)) (textsOf wsOwn) wsOwn.root pos) incl ↔
       l ∈ expected wsOwn wsOwn.root pos incl := by
-  have hc : resolvedWithPrimaryPath wsView (some (resolvedOf wsOwn order)) wsOwn.root.path =
-      (some (resolvedOf wsOwn order), wsOwn.root.path) := by
+  have hreq : serverRequest wsView wsTexts (some (resolvedOf wsOwn order)) (textsOf wsOwn) wsOwn.root pos =
+      requestFrom wsOwn wsOwn.root order pos := by
     cases wsView with
     | none => rfl
     | some v =>
       obtain ⟨r, root⟩ := v
-      exact (resolved_choice r root _ _).2.1 (hout r root rfl)
-  simp only [serverRequest, hc]
-  exact references_exact wsOwn hwf hf wsOwn.root (by simp [Workspace.files]) hsep hnames order pos incl l
+      have h := hout r root rfl
+      simp [serverRequest, requestFrom, resolvedWithPrimaryPath, h]
+  rw [hreq]
+  exact references_exact wsOwn hwf hf wsOwn.root (by simp [Workspace.files]) hsep hnames order pos hpos incl l
 
 /-! ### The workspace follows the buffers (`didopen-stale-workspace`, `didclose-stale-workspace`, repaired) -/
 
@@ -276,15 +295,15 @@ example : calm {} (dstart {} fsW)
     nothing to rename. -/
 theorem rename_edits_exact (ws : Workspace) (hwf : ws.WF) (hf : ws.faithful) (cur : FileT)
     (hcur : cur ∈ ws.files) (hsep : separated cur.spans) (hnames : ∀ s ∈ cur.spans, s.name ≠ [])
-    (order : List Path) (pos : LPos) (new : Bytes) :
+    (order : List Path) (pos : LPos) (hpos : cursorOK cur.lns pos) (new : Bytes) :
     match rename (requestFrom ws cur order pos) new with
     | none => expected ws cur pos true = []
     | some ch => ∀ p e, (∃ es, (p, es) ∈ ch ∧ e ∈ es) ↔
         (⟨p, e.range⟩ ∈ expected ws cur pos true ∧ e.newText = new) := by
-  have href := references_exact ws hwf hf cur hcur hsep hnames order pos true
+  have href := references_exact ws hwf hf cur hcur hsep hnames order pos hpos true
   simp only [references, requestFrom] at href
   simp only [rename, requestFrom]
-  cases h1 : findDefinitionTarget cur.tree pos with
+  cases h1 : findDefinitionTarget cur.lns cur.tree pos with
   | none =>
     simp only [h1] at href
     simp only
@@ -294,7 +313,7 @@ theorem rename_edits_exact (ws : Workspace) (hwf : ws.WF) (hf : ws.faithful) (cu
   | some t =>
     simp only [h1] at href
     simp only
-    by_cases hempty : (findReferences t.kind t.name (some (resolvedOf ws order)) ws.root.path
+    by_cases hempty : (findReferences (textsOf ws) t.kind t.name (some (resolvedOf ws order)) ws.root.path
         (some cur.tree) true).isEmpty = true
     · simp only [hempty, if_true]
       apply List.eq_nil_iff_forall_not_mem.mpr
@@ -342,14 +361,14 @@ def coherentB (ws : Workspace) (r : Resolved) : Bool :=
 
 /-- None of the guards of the known findings fires. -/
 def guardsOff (ws : Workspace) (r : Resolved) : Bool :=
-  wfB ws && coherentB ws r && ws.files.all fun f => faithfulB f.tree f.spans
+  wfB ws && coherentB ws r && ws.files.all fun f => faithfulB f.lns f.tree f.spans
 
 /-- **refs_exact_partial.**  The same statement about whatever resolved journal the server holds,
     under the decidable guard: the snapshot is coherent with the workspace and every tree is
     faithful to its text. -/
 theorem refs_exact_partial (ws : Workspace) (r : Resolved) (hg : guardsOff ws r = true)
     (kind : Kind) (name : Bytes) (hne : name ≠ []) (incl : Bool) (cur : Option Journal) (l : Loc) :
-    l ∈ findReferences kind name (some r) ws.root.path cur incl ↔
+    l ∈ findReferences (textsOf ws) kind name (some r) ws.root.path cur incl ↔
       l ∈ occurrences ws.spanFiles kind name incl := by
   simp only [guardsOff, wfB, coherentB, Bool.and_eq_true, bne_iff_ne, ne_eq, decide_eq_true_eq,
     List.all_eq_true] at hg
@@ -359,9 +378,13 @@ theorem refs_exact_partial (ws : Workspace) (r : Resolved) (hg : guardsOff ws r 
     simp only [resolvedOf] at *
     simp [h3, h4]
   rw [hr]
-  exact refs_exact ws ⟨h1, h2⟩ (fun f hfm => faithful_of_faithfulB _ _ (h5 f hfm)) kind name hne incl cur _ l
+  exact refs_exact ws ⟨h1, h2⟩ (fun f hfm => faithful_of_faithfulB (lns := f.lns) _ _ (h5 f hfm)) kind name hne incl cur _ l
 
 /-! ### Concrete workspaces (trees as the real parser produces them, positions checked against it) -/
+
+/-! The example files below are ASCII except `fileNB`; they carry no text (`lns := []`, requests
+    made with `noTexts` or `textsOf`, which then hands out `[]`): without a text the conversion
+    passes columns on unchanged, which on ASCII lines is what the conversion with the text gives. -/
 
 namespace Ex
 
@@ -408,12 +431,14 @@ def fileD : FileT :=
     spans := [sp .commodity usd 0 7 10, sp .payee shop 1 11 15, sp .account ab 2 2 5, sp .commodity usd 2 9 12] }
 
 def aGrin : Bytes := [97, 58, 0xF0, 0x9F, 0x98, 0x80]   -- a:😀
-/-- `2024-01-01 Shop` / `  a:😀  1 USD`: columns count runes, the client counts UTF-16 units. -/
+/-- `2024-01-01 Shop` / `  a:😀  1 USD`: columns count runes, the client counts UTF-16 units;
+    the file's text is what the conversion needs. -/
 def fileNB : FileT :=
   { path := "a.journal",
     tree := { transactions := [txn (R 1 1 1 11) shop [post ⟨aGrin, R 2 3 2 6⟩ (some (amt usd (R 2 10 2 13)))]],
               directives := [], comments := [], includes := [] },
-    spans := [sp .payee shop 0 11 15, sp .account aGrin 1 2 6, sp .commodity usd 1 10 13] }
+    spans := [sp .payee shop 0 11 15, sp .account aGrin 1 2 6, sp .commodity usd 1 10 13],
+    lns := ["2024-01-01 Shop".toList, "  a:😀  1 USD".toList, []] }
 
 /-- `2024-01-01 (12) Shop` / `  a:b  1`: the payee's position is estimated from the date. -/
 def fileCode : FileT :=
@@ -466,50 +491,59 @@ from an included file the root's occurrences were reported under the included fi
 the included file's own tree was overwritten. -/
 
 theorem pinned_primary_label_counterexample :
-    (∃ l, l ∈ findReferences .account ab (some (resolvedOf ws2 [])) "b.journal" none true ∧
+    (∃ l, l ∈ findReferences noTexts .account ab (some (resolvedOf ws2 [])) "b.journal" none true ∧
           l ∉ occurrences ws2.spanFiles .account ab true) ∧
     (∃ l, l ∈ occurrences ws2.spanFiles .account ab true ∧
-          l ∉ findReferences .account ab (some (resolvedOf ws2 [])) "b.journal" none true) :=
+          l ∉ findReferences noTexts .account ab (some (resolvedOf ws2 [])) "b.journal" none true) :=
   ⟨⟨⟨"b.journal", ⟨⟨1, 8⟩, ⟨1, 11⟩⟩⟩, by decide, by decide⟩,
    ⟨⟨"a.journal", ⟨⟨1, 8⟩, ⟨1, 11⟩⟩⟩, by decide, by decide⟩⟩
 
 /-! #### Known finding `unranged-commodity-site` -/
 
 theorem unranged_commodity_site_counterexample :
-    faithfulB fileD.tree fileD.spans = false ∧ unrangedSites fileD.tree usd = 1 ∧
+    faithfulB fileD.lns fileD.tree fileD.spans = false ∧ unrangedSites fileD.tree usd = 1 ∧
     ∃ l, l ∈ occurrences [(fileD.path, fileD.spans)] .commodity usd true ∧
-         l ∉ findReferences .commodity usd (some (single fileD)) fileD.path none true :=
+         l ∉ findReferences noTexts .commodity usd (some (single fileD)) fileD.path none true :=
   ⟨by decide, by decide, ⟨"a.journal", ⟨⟨0, 7⟩, ⟨0, 10⟩⟩⟩, by decide, by decide⟩
 
-/-! #### Known finding `utf16-columns` -/
+/-! #### The defect repaired by fix-utf16-positions.diff (finding `utf16-columns`)
 
-theorem utf16_columns_counterexample :
-    faithfulB fileNB.tree fileNB.spans = false ∧
-    ∃ l, l ∈ findReferences .commodity usd (some (single fileNB)) fileNB.path none true ∧
-         l ∉ occurrences [(fileNB.path, fileNB.spans)] .commodity usd true :=
-  ⟨by decide, ⟨"a.journal", ⟨⟨1, 9⟩, ⟨1, 12⟩⟩⟩, by decide, by decide⟩
+The code as pinned copied `column − 1` into the character, which is what the model does for a
+file without text (`noTexts`): after `a:😀` the commodity was reported one unit too far left.
+With the file's text the tree is faithful and the answer is the occurrence. -/
+
+theorem pinned_utf16_columns_counterexample :
+    faithfulB [] fileNB.tree fileNB.spans = false ∧
+    (∃ l, l ∈ findReferences noTexts .commodity usd (some (single fileNB)) fileNB.path none true ∧
+         l ∉ occurrences [(fileNB.path, fileNB.spans)] .commodity usd true) ∧
+    faithfulB fileNB.lns fileNB.tree fileNB.spans = true ∧
+    findReferences (textsOf ⟨fileNB, []⟩) .commodity usd (some (single fileNB)) fileNB.path none true =
+      [⟨"a.journal", ⟨⟨1, 10⟩, ⟨1, 13⟩⟩⟩] ∧
+    -- the cursor of the request is converted too: UTF-16 character 11 is on `USD`
+    references (requestFrom ⟨fileNB, []⟩ fileNB [] ⟨1, 11⟩) true = [⟨"a.journal", ⟨⟨1, 10⟩, ⟨1, 13⟩⟩⟩] :=
+  ⟨by decide, ⟨⟨"a.journal", ⟨⟨1, 9⟩, ⟨1, 12⟩⟩⟩, by decide, by decide⟩, by decide, by decide, by decide⟩
 
 /-! #### Known finding `payee-range-estimate` -/
 
 theorem payee_range_estimate_counterexample :
-    faithfulB fileCode.tree fileCode.spans = false ∧
-    ∃ l, l ∈ findReferences .payee shop (some (single fileCode)) fileCode.path none true ∧
+    faithfulB fileCode.lns fileCode.tree fileCode.spans = false ∧
+    ∃ l, l ∈ findReferences noTexts .payee shop (some (single fileCode)) fileCode.path none true ∧
          l ∉ occurrences [(fileCode.path, fileCode.spans)] .payee shop true :=
   ⟨by decide, ⟨"a.journal", ⟨⟨0, 11⟩, ⟨0, 15⟩⟩⟩, by decide, by decide⟩
 
 /-! #### Known finding `quoted-commodity-directive` -/
 
 theorem quoted_commodity_directive_counterexample :
-    faithfulB fileQuoted.tree fileQuoted.spans = false ∧
-    ∃ l, l ∈ findReferences .commodity aB (some (single fileQuoted)) fileQuoted.path none true ∧
+    faithfulB fileQuoted.lns fileQuoted.tree fileQuoted.spans = false ∧
+    ∃ l, l ∈ findReferences noTexts .commodity aB (some (single fileQuoted)) fileQuoted.path none true ∧
          l ∉ occurrences [(fileQuoted.path, fileQuoted.spans)] .commodity aB true :=
   ⟨by decide, ⟨"a.journal", ⟨⟨0, 10⟩, ⟨0, 13⟩⟩⟩, by decide, by decide⟩
 
 /-! #### Known finding `text-commodity-trailing-blank` -/
 
 theorem text_commodity_trailing_blank_counterexample :
-    faithfulB fileText.tree fileText.spans = false ∧
-    ∃ l, l ∈ findReferences .commodity usdL (some (single fileText)) fileText.path none true ∧
+    faithfulB fileText.lns fileText.tree fileText.spans = false ∧
+    ∃ l, l ∈ findReferences noTexts .commodity usdL (some (single fileText)) fileText.path none true ∧
          l ∉ occurrences [(fileText.path, fileText.spans)] .commodity usdL true :=
   ⟨by decide, ⟨"a.journal", ⟨⟨1, 9⟩, ⟨1, 14⟩⟩⟩, by decide, by decide⟩
 
@@ -530,20 +564,20 @@ def wsEdited : Workspace := ⟨fileA, [fileB']⟩
 
 theorem unsaved_include_not_seen_counterexample :
     coherentB wsEdited (resolvedOf ws2 []) = false ∧
-    ∃ l, l ∈ findReferences .commodity usd (some (resolvedOf ws2 [])) "a.journal" none true ∧
+    ∃ l, l ∈ findReferences noTexts .commodity usd (some (resolvedOf ws2 [])) "a.journal" none true ∧
          l ∉ occurrences wsEdited.spanFiles .commodity usd true :=
   ⟨by decide, ⟨"b.journal", ⟨⟨1, 9⟩, ⟨1, 12⟩⟩⟩, by decide, by decide⟩
 
 theorem pinned_didopen_stale_snapshot_counterexample :
     coherentB wsEdited (resolvedOf ws2 ["b.journal"]) = false ∧
     ∃ l, l ∈ occurrences wsEdited.spanFiles .commodity eur true ∧
-         l ∉ findReferences .commodity eur (some (resolvedOf ws2 ["b.journal"])) "a.journal" none true :=
+         l ∉ findReferences noTexts .commodity eur (some (resolvedOf ws2 ["b.journal"])) "a.journal" none true :=
   ⟨by decide, ⟨"b.journal", ⟨⟨2, 17⟩, ⟨2, 20⟩⟩⟩, by decide, by decide⟩
 
 theorem loader_cache_drops_subtree_counterexample :
     coherentB ws2 (single fileA) = false ∧
     ∃ l, l ∈ occurrences ws2.spanFiles .account ab true ∧
-         l ∉ findReferences .account ab (some (single fileA)) "a.journal" none true :=
+         l ∉ findReferences noTexts .account ab (some (single fileA)) "a.journal" none true :=
   ⟨by decide, ⟨"b.journal", ⟨⟨1, 2⟩, ⟨1, 5⟩⟩⟩, by decide, by decide⟩
 
 /-- Before fix-orphan-journal-own-tree.diff a request from a journal outside the root's tree
@@ -556,16 +590,16 @@ theorem pinned_orphan_reads_workspace_counterexample :
     let own := some (single orphan)
     wsContains (single fileD) "a.journal" "o.journal" = false ∧
     (∃ l, l ∈ occurrences [(orphan.path, orphan.spans)] .commodity eur true ∧
-      l ∉ findReferences .commodity eur (pinnedResolvedWithPrimaryPath wsv own orphan.path).1
+      l ∉ findReferences noTexts .commodity eur (pinnedResolvedWithPrimaryPath wsv own orphan.path).1
             (pinnedResolvedWithPrimaryPath wsv own orphan.path).2 (some orphan.tree) true) ∧
-    findReferences .commodity eur (resolvedWithPrimaryPath wsv own orphan.path).1
+    findReferences noTexts .commodity eur (resolvedWithPrimaryPath wsv own orphan.path).1
       (resolvedWithPrimaryPath wsv own orphan.path).2 (some orphan.tree) true =
       [⟨"o.journal", ⟨⟨1, 17⟩, ⟨1, 20⟩⟩⟩] :=
   ⟨by decide, ⟨⟨"o.journal", ⟨⟨1, 17⟩, ⟨1, 20⟩⟩⟩, by decide, by decide⟩, by decide⟩
 
 /-- Non-vacuity: a two-file workspace with shared symbols satisfies every hypothesis. -/
 example : guardsOff ws2 (resolvedOf ws2 ["b.journal"]) = true := by decide
-example : findReferences .account ab (some (resolvedOf ws2 [])) "a.journal" none true =
+example : findReferences noTexts .account ab (some (resolvedOf ws2 [])) "a.journal" none true =
     [⟨"a.journal", ⟨⟨1, 8⟩, ⟨1, 11⟩⟩⟩, ⟨"a.journal", ⟨⟨3, 2⟩, ⟨3, 5⟩⟩⟩, ⟨"b.journal", ⟨⟨1, 2⟩, ⟨1, 5⟩⟩⟩] := by decide
 example : (references (requestFrom ws2 fileB [] ⟨1, 18⟩) false) = [⟨"b.journal", ⟨⟨1, 17⟩, ⟨1, 20⟩⟩⟩] := by decide
 
